@@ -842,7 +842,8 @@ def build_functions(sc: Scenario, broker: AsyncBroker) -> None:
         f = ns[fn]
         f.__module__ = "mon.worker_harness"
         if ts.get("late_at") is not None:
-            sc.late.append((ts["late_at"], f, tname, ts.get("labels", {})))
+            # (reg_name: the name it is registered under - a second function for a name that is registered already)
+            sc.late.append((ts["late_at"], f, ts.get("reg_name", tname), ts.get("labels", {})))
         elif ts.get("shared"):
             # a task of the process-wide shared broker: any worker may be asked to run it
             from taskiq import async_shared_broker
